@@ -115,8 +115,8 @@ Definition ok_out (s : state) (e : event) (o : output) : Prop :=
   | OParts _ => stop_pend s = false /\ exists rid gn mem, e = EJoin rid (JOk gn mem 1)
   | OSync _ _ _ _ => stop_pend s = false /\ ((exists rid gn mem role, e = EJoin rid (JOk gn mem role)) \/ (exists rid, e = EParts rid POk))
   | OHeartbeat _ _ _ => e = ETick
-  | OStartC _ t p g m => exists rid asg, e = ESync rid (SOk asg) /\ stop_pend s = false /\ is_group s = true /\
-                                         In (t, p) asg /\ g = generation s /\ m = member s
+  | OStartC _ t p g m => exists rid asg, (e = ESync rid (SOk asg) \/ exists n, e = ESync rid (SOkRaise asg n)) /\ stop_pend s = false /\
+                                         is_group s = true /\ In (t, p) asg /\ g = generation s /\ m = member s
   | _ => True
   end.
 
@@ -229,18 +229,49 @@ Qed.
 Lemma reset_hb_q : forall s, Q (snd (reset_heartbeat_timer s)).
 Proof. intros s. unfold reset_heartbeat_timer. destruct (hb_running s); cbn [snd]; qq. Qed.
 
+Lemma sync_ok_out : forall rid asg (a : act) (r : sync_res) s o,
+  (r = SOk asg \/ exists n, r = SOkRaise asg n) -> stop_pend s = false ->
+  (forall s0 o0, In o0 (snd (a s0)) -> exists cid t p g m, o0 = OStartC cid t p g m /\ g = generation s0 /\ m = member s0 /\ In (t, p) asg) ->
+  (is_group s = true \/ (forall s0 o0, In o0 (snd (a s0)) -> is_group s0 = true)) ->
+  forall (tl : act), (forall s0, Q (snd (tl s0))) ->
+  In o (snd ((upd (set_cur_assign asg) ;; reset_heartbeat_timer ;; upd (set_rejoin_needed false) ;; a ;; tl) s)) ->
+  ok_out s (ESync rid r) o.
+Proof.
+  intros rid asg a r s o Hr SP HA HG tl Htl H.
+  apply seq_out in H. destruct H as [[]|H]. apply seq_out in H. destruct H as [H|H]; [eapply Q_ok; [apply reset_hb_q|exact H]|].
+  apply seq_out in H. destruct H as [[]|H]. apply seq_out in H. destruct H as [H|H]; [|eapply Q_ok; [apply Htl|exact H]].
+  destruct (HA _ _ H) as (cid & t & p & g0 & m & -> & C & D & E).
+  assert (G : is_group s = true).
+  { destruct HG as [X|X]; [exact X|]. specialize (X _ _ H). rewrite reset_hb_fst in X. unfold upd in X. cbn [fst] in X. ds s. exact X. }
+  cbn. exists rid, asg. split; [destruct Hr as [->|[n ->]]; [left|right; exists n]; reflexivity|]. split; [exact SP|]. split; [exact G|].
+  rewrite reset_hb_fst in *. unfold upd in *. cbn [fst] in *. ds s. cbn in *. auto.
+Qed.
+
 Lemma on_sync_out : forall rid r s o, In o (snd (on_sync rid r s)) -> ok_out s (ESync rid r) o.
 Proof.
   intros rid r s o H. unfold on_sync in H. apply with_gen_out in H. destruct H as (g & rest & _ & H).
-  destruct r as [asg| | |k]; try (eapply Q_ok; [apply q_seq; [apply q_rae|apply q_gen_end]|exact H]).
-  all: destruct (stop_pend (set_gens rest s)) eqn:SP; [destruct H|]; rewrite stop_pend_set_gens in SP.
+  assert (JC : forall asg s0 o0, In o0 (snd (on_join_complete asg s0)) ->
+            exists cid t p g m, o0 = OStartC cid t p g m /\ g = generation s0 /\ m = member s0 /\ In (t, p) asg).
+  { intros asg s0 o0 H0. destruct (join_complete_kind _ _ _ H0) as (cid & t & p & g0 & m & ->).
+    apply join_complete_out in H0. destruct H0 as (A & B & C & D & E). exists cid, t, p, g0, m. auto. }
+  assert (JG : forall asg s0 o0, In o0 (snd (on_join_complete asg s0)) -> is_group s0 = true).
+  { intros asg s0 o0 H0. destruct (join_complete_kind _ _ _ H0) as (cid & t & p & g0 & m & ->).
+    apply join_complete_out in H0. destruct H0 as (A & _). exact A. }
+  assert (TR : forall r0, ok_out (set_gens rest s) (ESync rid r0) o -> stop_pend (set_gens rest s) = false -> ok_out s (ESync rid r0) o).
+  { intros r0 X SP. rewrite stop_pend_set_gens in SP. destruct o; try exact I; cbn in X |- *; try exact X; try (ds s; exact X).
+    all: try (destruct X as (r1 & a0 & X1 & X2 & X3 & X4 & X5 & X6); exists r1, a0; ds s; cbn in *; auto 10). }
+  destruct r as [asg| | |k|asg n]; try (eapply Q_ok; [apply q_seq; [apply q_rae|apply q_gen_end]|exact H]).
+  all: destruct (stop_pend (set_gens rest s)) eqn:SP; [destruct H|].
   2,3: eapply Q_ok; [apply q_gen_fail|exact H].
-  apply seq_out in H. destruct H as [[]|H]. apply seq_out in H. destruct H as [H|H]; [eapply Q_ok; [apply reset_hb_q|exact H]|].
-  apply seq_out in H. destruct H as [[]|H]. apply seq_out in H. destruct H as [H|[]].
-  destruct (join_complete_kind _ _ _ H) as (cid & t & p & g0 & m & ->).
-  apply join_complete_out in H. destruct H as (A & B & C & D & E).
-  cbn. exists rid, asg. split; [reflexivity|split; [exact SP|]].
-  rewrite reset_hb_fst in *. unfold upd in *. cbn [fst] in *. ds s. cbn in *. auto.
+  - apply TR; [|reflexivity].
+    eapply (sync_ok_out rid asg (on_join_complete asg)); [left; reflexivity|exact SP|apply JC|right; apply JG|apply q_gen_end|exact H].
+  - apply TR; [|reflexivity]. destruct (ctor_raises asg n (set_gens rest s)) eqn:CR.
+    + eapply (sync_ok_out rid asg (start_consumers (firstn (Z.to_nat n) (group_by_topic asg)))); [right; eauto|exact SP| | |apply q_gen_fail|exact H].
+      * intros s0 o0 H0. destruct (start_consumers_kind _ _ _ H0) as (cid & t & p & g0 & m & ->).
+        apply start_consumers_out in H0. destruct H0 as (A & B & C). exists cid, t, p, g0, m.
+        split; [reflexivity|split; [exact A|split; [exact B|]]]. apply group_by_topic_In. eapply firstn_In; eauto.
+      * left. unfold ctor_raises in CR. destruct (is_group (set_gens rest s)); [reflexivity|discriminate].
+    + eapply (sync_ok_out rid asg (on_join_complete asg)); [right; eauto|exact SP|apply JC|right; apply JG|apply q_gen_end|exact H].
 Qed.
 
 Lemma on_tick_out : forall s o, In o (snd (on_tick s)) -> ok_out s ETick o.
